@@ -15,7 +15,15 @@ import (
 // documentation leaves freedom the reference returns alternatives (see the comments at each command).
 
 func init() {
-	register("C17", familyCheck{&familySpec{Prop: "C17", Kinds: []string{"zset"}, Ref: refZset, Random: zRandom, Sig: zSig, LooseDeadlines: true, Deep: []Action{cmd("ZRANGE", "z", "-inf", "+inf", "BYSCORE", "WITHSCORES"), cmd("ZADD", "z", "2", "a"), cmd("ZADD", "z", "2", "q"), cmd("ZREM", "z", "b"), cmd("ZINCRBY", "z", "1", "a"), cmd("ZPOPMIN", "z"), cmd("ZPOPMAX", "z", "2"), cmd("ZRANK", "z", "c"), cmd("ZCARD", "z"), cmd("ZUNIONSTORE", "dst", "z", "z2"), cmd("ZINTERSTORE", "z", "z", "z2"), cmd("ZREMRANGEBYSCORE", "z", "2", "2"), cmd("ZRANGESTORE", "dst", "z", "1", "3", "BYSCORE"), cmd("ZSCORE", "z", "a")},
+	register("C17", familyCheck{&familySpec{Prop: "C17", Kinds: []string{"zset"}, Ref: refZset, Random: zRandom, Sig: zSig, LooseDeadlines: true,
+		// an all-equal-score set whose members are prefixes of one another, and lexical bounds that are prefixes or extensions of members
+		ExtraCmd: func() []Action {
+			return []Action{cmd("ZADD", "x", "0", "a", "0", "ab", "0", "abc", "0", "b", "0", "ba"), cmd("ZLEXCOUNT", "x", "[ab", "[b"), cmd("ZLEXCOUNT", "x", "[a", "(ab"), cmd("ZLEXCOUNT", "x", "(a", "[abc"),
+				cmd("ZRANGE", "x", "[abc", "[b", "BYLEX"), cmd("ZRANGE", "x", "(ab", "+", "BYLEX"), cmd("ZREMRANGEBYLEX", "x", "[ab", "[abc"), cmd("ZREMRANGEBYLEX", "x", "-", "(ab"), cmd("ZRANGESTORE", "dst", "x", "(a", "(b", "BYLEX"),
+				// the same bounds spelled plainly (the reading "min <= member <= max over the strings as given")
+				cmd("ZLEXCOUNT", "x", "ab", "b"), cmd("ZLEXCOUNT", "x", "a", "ab"), cmd("ZRANGE", "x", "abc", "b", "BYLEX"), cmd("ZREMRANGEBYLEX", "x", "ab", "abc"), cmd("ZRANGESTORE", "dst", "x", "a", "abc", "BYLEX")}
+		},
+		Deep: []Action{cmd("ZRANGE", "z", "-inf", "+inf", "BYSCORE", "WITHSCORES"), cmd("ZADD", "z", "2", "a"), cmd("ZADD", "z", "2", "q"), cmd("ZREM", "z", "b"), cmd("ZINCRBY", "z", "1", "a"), cmd("ZPOPMIN", "z"), cmd("ZPOPMAX", "z", "2"), cmd("ZRANK", "z", "c"), cmd("ZCARD", "z"), cmd("ZUNIONSTORE", "dst", "z", "z2"), cmd("ZINTERSTORE", "z", "z", "z2"), cmd("ZREMRANGEBYSCORE", "z", "2", "2"), cmd("ZRANGESTORE", "dst", "z", "1", "3", "BYSCORE"), cmd("ZSCORE", "z", "a")},
 		Title: "refZset (a Go map member->score listed by score then member: ZADD flag table, ZINCRBY, removal by member/rank/score/lex/pop, rank and count queries, ZRANGE by index/score/lex with REV and LIMIT, weighted ZUNION/ZINTER/ZDIFF and STORE forms; ZRANDMEMBER judged on size/distinctness/membership)"}})
 }
 
